@@ -129,6 +129,15 @@ Proof.
   rewrite E4. reflexivity.
 Qed.
 
+(* ---------- variables: `$` followed by word characters is one DOLLAR token whose value is that very text ---------- *)
+Theorem dollar_name : forall w, memz 36 (ignore cfg) = false -> forallb (is_w cfg) w = true ->
+  lex cfg (36 :: w) = ([mkTok K_DOLLAR 0 (S (length w)) (VText (36 :: w))], EndOk).
+Proof.
+  intros w Ig All. apply lex_single; [exact Ig|]. unfold match_token. cbn [m_dollar Z.eqb Pos.eqb].
+  rewrite (span_all _ _ All). change (firstn (S (length w)) (36 :: w)) with (firstn (length (36 :: w)) (36 :: w)).
+  rewrite firstn_all. reflexivity.
+Qed.
+
 (* ---------- the escape table ---------- *)
 Lemma decode_skip : forall (p rest : text), decode_from cfg (length p) (p ++ rest) = decode_from cfg 0 rest.
 Proof. induction p as [|x p IH]; intro rest; [reflexivity|]. cbn [length app decode_from]. apply IH. Qed.
